@@ -35,6 +35,28 @@ func init() {
 		}
 		return False()
 	}
+	intrinsics["reflect.DeepEqual"] = func(c *Ctx, st *State, in ssa.Instruction, args []Value) Value {
+		a, ok1 := args[0].(IfaceV)
+		b, ok2 := args[1].(IfaceV)
+		if !ok1 || !ok2 || a.Dyn == nil || b.Dyn == nil {
+			unsupported("reflect.DeepEqual on unknown dynamic types")
+		}
+		if !types.Identical(a.Dyn, b.Dyn) {
+			return False()
+		}
+		sa, ok1 := a.Val.(SliceV)
+		sb, ok2 := b.Val.(SliceV)
+		if !ok1 || !ok2 {
+			unsupported("reflect.DeepEqual on %s", a.Dyn)
+		}
+		if _, isBasic := under(sa.Elem).(*types.Basic); !isBasic {
+			unsupported("reflect.DeepEqual on slices of %s", sa.Elem)
+		}
+		env := &SpecEnv{c: c, st: st, vars: map[string]Value{}}
+		ha, hb := c.toHeapSlice(st, sa, sa.Elem), c.toHeapSlice(st, sb, sb.Elem)
+		nilEq := Eq(Eq(ha.Ref, IntC(0)), Eq(hb.Ref, IntC(0)))
+		return And(nilEq, c.seqEq(env, ha, hb))
+	}
 	intrinsics["math.Inf"] = func(c *Ctx, st *State, in ssa.Instruction, args []Value) Value {
 		if !c.FP {
 			unsupported("math.Inf in real mode")
